@@ -115,6 +115,9 @@ fn boundary_labels() -> Vec<MLabel> {
         v.push(MLabel::Text(format!("{}b", "p".repeat(n))));
         v.push(MLabel::Text(format!("{}c{}", "p".repeat(n / 2), "p".repeat(n - n / 2))));
     }
+    for t in ["A", "Ab", "AB", "wrap", "WRAP", "Wrap", "\u{c9}", "a\u{301}", "\u{e1}"] {
+        v.push(MLabel::Text(t.to_string()));
+    }
     // multi-byte characters: byte length differs from char count
     v.push(MLabel::Text("\u{e9}".repeat(12))); // 24 bytes, 12 chars
     v.push(MLabel::Text("\u{e9}".repeat(11))); // 22 bytes
@@ -204,8 +207,15 @@ fn decoded_values(ty: Ty) -> Vec<(MLabel, CVal)> {
             cands.push(MLabel::Int(i));
         }
     }
-    for t in ["", "a", "b", "aa", "ab", "\u{e9}", "\u{e9}a", "aaa", "z", "\u{2603}"] {
+    for t in ["", "a", "b", "aa", "ab", "\u{e9}", "\u{e9}a", "aaa", "z", "\u{2603}", "A", "Ab", "AB", "wrap", "WRAP", "Wrap", "wrap ", "\u{c9}", "\u{e9}A", "sign", "Sign", "a\u{301}", "\u{e1}"] {
         cands.push(MLabel::Text(t.to_string()));
+    }
+    // every label of the plain-label boundary set that is a text (long shared prefixes, equal byte
+    // lengths with different character counts, head-length boundaries)
+    for l in boundary_labels() {
+        if matches!(l, MLabel::Text(_)) && !cands.contains(&l) {
+            cands.push(l);
+        }
     }
     cands.push(MLabel::Text("a".repeat(23)));
     cands.push(MLabel::Text("a".repeat(24)));
